@@ -1,4 +1,4 @@
-import Mainchain.Lemmas.RegImport
+import Mainchain.Lemmas.RegCanon
 import Mainchain.Lemmas.Witness
 import Mainchain.Lemmas.RegistryReach
 /-
@@ -106,6 +106,35 @@ theorem c15_registries_lossless (g : GenCfg) (hg : GenBooksValid g) (hr : GenReg
   refine ⟨_, c15_enterprise_identical g hg s (h.weaken (fun _ hq => hq.1)) hq hgov, rfl, rfl, rfl, ?_, ?_⟩
   · exact importReg_same_wrk s.wrk (wrkInv_reachable g hr s (h.weaken (fun _ hq => hq.2.1))) hcw
   · exact importReg_same_bcn s.bcn (bcnInv_reachable g hr s (h.weaken (fun _ hq => hq.2.2))) hcb
+
+/-- **Export followed by import is the identity.**  Every section of the model state is stored in the order the
+store iterates it — orders, registrations and limits by ascending id, records by ascending store key, the
+whitelist ascending — in every state of every run; the import rebuilds exactly that order.  When no registration
+retains more than 20,000 records the imported chain is therefore in the *same state* as the exported one … -/
+theorem c15_export_import_identity (g : GenCfg) (hg : GenBooksValid g) (hr : GenRegValid g) (s : State)
+    (h : FineReach g (fun s => BooksQ g.ent.denom s ∧ RegQ s) s)
+    (hq : s.ent.params.denom = g.ent.denom) (hgov : (s.bank.allBalances Mgov).isEmpty = true)
+    (hcw : ∀ id, (s.wrk.retained id).length ≤ exportCap) (hcb : ∀ id, (s.bcn.retained id).length ≤ exportCap) :
+    exportImport Facts.initGenesisOrder s = .ok s := by
+  rw [c15_enterprise_identical g hg s (h.weaken (fun _ hq => hq.1)) hq hgov]
+  obtain ⟨hw, hwc⟩ := wrkCanon_reachable g hr s (h.weaken (fun _ hq => hq.2.1))
+  obtain ⟨hb, hbc⟩ := bcnCanon_reachable g hr s (h.weaken (fun _ hq => hq.2.2))
+  rw [importReg_eq s.wrk hw.reg hwc (importReg_same_wrk s.wrk hw hcw), importReg_eq s.bcn hb.reg hbc (importReg_same_bcn s.bcn hb hcb)]
+
+/-- … **so the same subsequent transactions, blocks and governance proposals have the same effects on both
+chains**, and exporting again gives the identical document: whatever is computed from the imported state is
+computed from the exported one. -/
+theorem c15_same_future (g : GenCfg) (hg : GenBooksValid g) (hr : GenRegValid g) (s : State)
+    (h : FineReach g (fun s => BooksQ g.ent.denom s ∧ RegQ s) s)
+    (hq : s.ent.params.denom = g.ent.denom) (hgov : (s.bank.allBalances Mgov).isEmpty = true)
+    (hcw : ∀ id, (s.wrk.retained id).length ≤ exportCap) (hcb : ∀ id, (s.bcn.retained id).length ≤ exportCap) :
+    ∃ s', exportImport Facts.initGenesisOrder s = .ok s' ∧
+      (∀ wall tx, deliverTx Facts.anteOrder wall s' tx = deliverTx Facts.anteOrder wall s tx) ∧
+      (∀ tx, checkTx Facts.anteOrder s' tx = checkTx Facts.anteOrder s tx) ∧
+      (∀ t, beginBlock Facts.beginBlockSteps { s' with time := t } = beginBlock Facts.beginBlockSteps { s with time := t }) ∧
+      (∀ wall msgs, govExecAll wall s' msgs = govExecAll wall s msgs) ∧
+      exportImport Facts.initGenesisOrder s' = exportImport Facts.initGenesisOrder s :=
+  ⟨s, c15_export_import_identity g hg hr s h hq hgov hcw hcb, fun _ _ => rfl, fun _ => rfl, fun _ => rfl, fun _ _ => rfl, rfl⟩
 
 /-- the enterprise section is imported twice (it is listed twice in the genesis order): the second import
 changes nothing, because the import is a function of the exported document alone -/
